@@ -254,6 +254,62 @@ def run(ctx):
                         "protocol's `in` (used to merge attributes of a repeated <html>/<body> tag) then reports every name as present "
                         "and new attributes are never added")],
                 detail={"returns": [norm(x.value) for x in rets]})
+    # ---- C04.9 detach before attach: minidom moves a node that already has a parent, ElementTree appends a second reference
+    r.rule("C04.9", "a node that may already have a parent is detached before it is attached elsewhere", floor=5)
+    FRESH_CALLS = ("createElement", "cloneNode", "elementClass", "commentClass", "doctypeClass", "fragmentClass", "documentClass")
+    n9 = 0
+    for rel in ("html5parser.py", "treebuilders/base.py"):
+        for f in ctx.repo.module(rel).all_functions:
+            calls = [c for c in walk_no_nested(f.node) if isinstance(c, ast.Call) and isinstance(c.func, ast.Attribute)
+                     and c.func.attr in ("appendChild", "insertBefore") and c.args]
+            if not calls:
+                continue
+            cfg = None
+            for c in calls:
+                y = c.args[0]
+                key = "detach-before-attach::%s::%s" % (f.qual, norm(c)[:40])
+                where = "%s:%d" % (rel, c.lineno)
+                if isinstance(y, ast.Call):
+                    fresh = (attr_chain(y.func) or [""])[-1] in FRESH_CALLS
+                    r.idiom("C04.9", fresh, key, where, "attached value `%s` is not a recognised constructor" % norm(y)[:40])
+                    n9 += 1
+                    continue
+                if not isinstance(y, ast.Name):
+                    continue
+                n9 += 1
+                stores = [s for s in walk_no_nested(f.node) if isinstance(s, ast.Assign) and any(isinstance(t, ast.Name) and t.id == y.id for t in s.targets)]
+                fresh = bool(stores) and all(isinstance(s.value, ast.Call) and (attr_chain(s.value.func) or [""])[-1] in FRESH_CALLS for s in stores)
+                if fresh:
+                    r.ok("C04.9", key, where, detail={"node": y.id, "why": "created in this function"})
+                    continue
+                # move-all idiom: for child in self.childNodes: new.appendChild(child) ... self.childNodes = []
+                loop = next((l for l in walk_no_nested(f.node) if isinstance(l, ast.For) and isinstance(l.target, ast.Name) and l.target.id == y.id
+                             and norm(l.iter).endswith("childNodes") and any(x is c for x in ast.walk(l))), None)
+                if loop is not None:
+                    src_expr = norm(loop.iter)
+                    cleared = any(isinstance(s, ast.Assign) and norm(s.targets[0]) == src_expr and norm(s.value) == "[]" for s in walk_no_nested(f.node))
+                    r.check("C04.9", cleared, key, where, "%s moves every child of %s without clearing the source list afterwards" % (f.qual, src_expr),
+                            detail={"node": y.id, "why": "move-all idiom"})
+                    continue
+                cfg = cfg or CFG(f.node)
+                loc = cfg.locate(c)
+
+                def detached(n, lab, y=y):
+                    if n.kind == "test" and norm(n.ast) == "%s.parent" % y.id and lab is False:
+                        return True
+                    return any(isinstance(cc.func, ast.Attribute) and cc.func.attr == "removeChild" and cc.args and norm(cc.args[0]) == y.id
+                               for cc in node_calls(n))
+                ok = bool(loc) and all(cfg.dominated_by(l, detached) for l in loc)
+                r.check("C04.9", ok, key, where,
+                        "%s attaches `%s`, which may still be a child of another node, without detaching it first: minidom moves the node, "
+                        "ElementTree keeps it in both places, so the ElementTree tree contains the subtree twice" % (f.qual, y.id),
+                        {"function": f.qual, "node": y.id}, detail={"node": y.id, "why": "dominated by removeChild / no-parent test"})
+    if n9 < 8:
+        raise AnalysisError("C04.9 matched %d attach sites" % n9)
+    # ---- C04.10 the builder factory cache distinguishes the full-tree and root-element forms (keyword values are in the key)
+    r.rule("C04.10", "the tree-builder module cache keys on the keyword arguments' values (fullTree, ...)", floor=1)
+    from .c12 import lossy_cache_keys
+    lossy_cache_keys(ctx, "C04.10")
     # ---- C04.3b: `childNodes` is a property in the etree back-end (getter returns the shadow list, setter clears both
     # lists): mutating the returned list in place changes the shadow list only
     n3b = 0
